@@ -264,7 +264,9 @@ def ev(e, mu, ctx):
         if name == "isLiteral": return TRUE if isinstance(a, Literal) else FALSE
         if name == "isNumeric": return TRUE if num(a) is not None else FALSE
         if name == "STR":
-            if isinstance(a, BNode): raise Err("STR of bnode")
+            if isinstance(a, BNode):
+                STATS["str_of_bnode"] += 1
+                raise Err("STR of bnode")
             return Literal(str(a))
         if name == "LANG":
             if not isinstance(a, Literal): raise Err("LANG of non-literal")
@@ -516,6 +518,8 @@ def eval_agg(a, group, ctx):
             c = order_cmp(v, best)
             if c is None: raise Latitude("MIN/MAX over values whose order SPARQL does not define")
             if (c < 0 and name == "MIN") or (c > 0 and name == "MAX"): best = v
+        if any(order_cmp(v, best) == 0 and rkey(v) != rkey(best) for v in vals):
+            raise Latitude("MIN/MAX: several equal values with different terms")
         return best
     if name == "SAMPLE":
         if not vals: raise Err("empty")
@@ -544,6 +548,24 @@ def ev_with_aggs(e, group, key_mu, ctx):
         if isinstance(x, list): return [sub(y) if isinstance(y, list) else y for y in x]
         return x
     return ev(sub(e), key_mu, ctx)
+
+
+def groups_of(spec, ctx):
+    """the groups (lists of solutions) GROUP BY forms, before HAVING; the implicit single group if there is no GROUP BY"""
+    sols = eval_pattern(spec["where"], ctx)
+    gb = spec.get("groupby") or []
+    if not gb:
+        return [sols]
+    groups = {}
+    for m in sols:
+        key = []
+        for ex, alias in gb:
+            try:
+                key.append(rkey(ev(ex, m, ctx)))
+            except (Err, Latitude):
+                key.append(None)
+        groups.setdefault(tuple(key), []).append(m)
+    return list(groups.values())
 
 
 def eval_select(spec, ctx):
